@@ -45,12 +45,14 @@ LEVEL_NOTE = (
 )
 RULE = (
     "Run = part list (content with CR/LF runs, '--', delimiter prefixes and look-alikes, sizes around 8192 and around "
-    "the delimiter length; base64 / quoted-printable / gzip / deflate / binary; names and filenames with non-ASCII, "
+    "the delimiter length; base64 / quoted-printable / gzip / deflate / binary / identity, coding names also in upper "
+    "and mixed case; names and filenames with non-ASCII, "
     "quotes, backslashes, semicolons; quote_fields on/off; nested writers; payloads with and without size) x "
     "segmentation (whole, fixed n, random, byte-wise windows around every delimiter) x read programme per part "
     "(read, read(decode), read_chunk with sampled legal sizes, readline, text, release, next() before the part is "
-    "finished) x mode (round trip / mutated body for termination / small client_max_size, max_field_size, "
-    "max_headers). Non-trivial: a delimiter line was split by a segment edge, or a part needed >=2 read_chunk calls, "
+    "finished) x mode (round trip, a sample through a reader with a finite client_max_size / mutated body for "
+    "termination / small client_max_size, max_field_size, max_headers over flat and nested part lists, whole-part "
+    "read(), read(decode) and text()). Non-trivial: a delimiter line was split by a segment edge, or a part needed >=2 read_chunk calls, "
     "or a mutation / limit was exercised. Distinct = interleaving signature."
 )
 ENUM_RULE = (
@@ -72,6 +74,10 @@ ASSUMPTIONS = [
     "stream's line limit; read_chunk sizes are >= len('--' + boundary) + 2 (the reader's documented assertion)",
     "quoted-printable parts are only generated when Python's own QP codec round-trips the text",
     "a filename / name may arrive verbatim or percent-encoded (decoding to the original)",
+    "Content-Encoding / Content-Transfer-Encoding names are case-insensitive (RFC 9110 8.4.1, RFC 2045 6.1): the "
+    "writer accepts any spelling, so every spelling must read back",
+    "client_max_size bounds what one part's read()/text() returns (raw bytes, and decoded bytes when decoding), for "
+    "parts at any nesting depth; read_chunk/readline/release are not bounded by it",
     "per-chunk decode() is judged only for base64 (the reader aligns chunks to quartets); other encodings are decoded "
     "once over the joined raw data",
 ]
@@ -130,7 +136,9 @@ def gen(rng, tier, index):
         top = gen_top(rng)
         bl = len(top["boundary"]) + 4
         return {"world": "U", "mode": "roundtrip", "w": top, "prog": G.gen_program(rng, bl, _count_leaves(top["parts"])),
-                "cuts": G.gen_cuts(rng, True), "limit": limit, "email": rng.random() < 0.35, "jitter": rng.random() < 0.3}
+                "cuts": G.gen_cuts(rng, True), "limit": limit, "email": rng.random() < 0.35, "jitter": rng.random() < 0.3,
+                # a sample of the round trips reads through a reader with a finite client_max_size
+                "rcms": rng.choice([10, 100, 1000, 8192, 9000, 20000]) if rng.random() < 0.08 else None}
     if r < 0.88:
         top = gen_top(rng, maxparts=3, big_ok=False)
         bl = len(top["boundary"]) + 4
@@ -184,8 +192,32 @@ def gen_limits(rng, limit):
                  "xh": [["X-%d" % i, "v"] for i in range(max(0, extra))], "c": [["n", 2, 0, 5]]}
             parts.append(p)
         scn["prog"] = [["read", False]]
+    # limits hold for every part, also inside nested multiparts: a sample wraps a run of the parts
+    # into a nested writer (two levels now and then)
+    if rng.random() < 0.3:
+        i = rng.randrange(len(parts))
+        j = rng.randint(i + 1, len(parts))
+        inner = rng.choice([b for b in ("XyZ", "frontier", "b", "0123456789abcdef0123456789abcdef", "in-ner") if b != boundary])
+        if rng.random() < 0.25:
+            deep = "deep." + inner
+            wrapped = _nest(inner, [_nest(deep, [dict(p, avoid=[inner, boundary]) for p in parts[i:j]], rng)], rng)
+        else:
+            wrapped = _nest(inner, [dict(p, avoid=[boundary]) for p in parts[i:j]], rng)
+        parts = parts[:i] + [wrapped] + parts[j:]
+    if kind == "cms" and rng.random() < 0.15:
+        # text() is read(decode=True) + charset decoding: ASCII content
+        def asc(ps):
+            return [dict(p, sub=dict(p["sub"], parts=asc(p["sub"]["parts"]))) if p["k"] == "nested" else
+                    dict(p, c=[[a[0], 2] + a[2:] if a[0] == "n" else a for a in p["c"]]) for p in ps]
+        parts = asc(parts)
+        scn["prog"] = [["text"]]
     scn["w"] = {"top": "writer", "subtype": "mixed", "boundary": boundary, "parts": parts}
     return scn
+
+
+def _nest(boundary, parts, rng):
+    return {"k": "nested", "ct": None, "cte": "", "ce": "", "disp": None, "qf": True, "xh": [], "avoid": [],
+            "sub": {"subtype": rng.choice(["mixed", "mixed", "related"]), "boundary": boundary, "parts": parts}}
 
 
 def gen_cs(rng):
@@ -260,6 +292,8 @@ def _simpler_parts(parts):
         yield parts[:i] + parts[i + 1:]
     for i, p in enumerate(parts):
         if p["k"] == "nested":
+            # the nested parts directly at this level (is the nesting needed?)
+            yield parts[:i] + [q for q in p["sub"]["parts"]] + parts[i + 1:]
             for sub_parts in _simpler_parts(p["sub"]["parts"]):
                 q = dict(p, sub=dict(p["sub"], parts=sub_parts))
                 yield parts[:i] + [q] + parts[i + 1:]
@@ -267,6 +301,8 @@ def _simpler_parts(parts):
         for key, val in (("xh", []), ("disp", None), ("cte", ""), ("ce", ""), ("ct", None)):
             if p.get(key) != val and not (key == "disp" and p.get("formfield")):
                 yield parts[:i] + [dict(p, **{key: val})] + parts[i + 1:]
+        if p.get("ces") or p.get("ctes"):  # back to the canonical lower-case coding names
+            yield parts[:i] + [{k: v for k, v in p.items() if k not in ("ces", "ctes")}] + parts[i + 1:]
         if p["k"] in ("bio", "aiter"):
             yield parts[:i] + [dict(p, k="bytes")] + parts[i + 1:]
         c = p.get("c")
@@ -321,6 +357,8 @@ def shrink(scn):
         yield dict(scn, email=False)
     if scn.get("limit", 65536) != 65536:
         yield dict(scn, limit=65536)
+    if scn.get("rcms") is not None:
+        yield dict(scn, rcms=None)
     if scn["world"] == "CS":
         for k in ("pol_c2s", "pol_s2c"):
             if scn[k] != "whole":
@@ -336,7 +374,8 @@ def shrink(scn):
 
 
 class Node:
-    __slots__ = ("leaf", "spec", "data", "payload", "parts", "boundary", "text", "name", "filename", "form")
+    __slots__ = ("leaf", "spec", "data", "payload", "parts", "boundary", "text", "name", "filename", "form", "raw_len",
+                 "depth")
 
     def __init__(self, leaf, spec):
         self.leaf = leaf
@@ -349,6 +388,8 @@ class Node:
         self.name = None
         self.filename = None
         self.form = False
+        self.raw_len = None  # encoded length on the wire (set_raw_lens)
+        self.depth = 0
 
 
 async def _agen(pieces):
@@ -410,9 +451,9 @@ def build(top):
             if spec["ct"]:
                 hdrs["Content-Type"] = spec["ct"]
             if spec["cte"]:
-                hdrs["Content-Transfer-Encoding"] = spec["cte"]
+                hdrs["Content-Transfer-Encoding"] = G.spelled(spec, "cte")
             if spec["ce"]:
-                hdrs["Content-Encoding"] = spec["ce"]
+                hdrs["Content-Encoding"] = G.spelled(spec, "ce")
             for k, v in spec["xh"]:
                 hdrs.add(k, v)
             k = spec["k"]
@@ -527,6 +568,9 @@ class Consumer:
         self.stream = None
         self.on_part = None  # callback(part) when a leaf part is handed out
         self.partial_readline = False  # a part was left unfinished after readline() calls
+        self.size_limit = None  # the reader's client_max_size, when one is configured ...
+        self.size_exc = None    # ... and its max_size_error_cls
+        self.size_hit = False   # the size error was raised where it had to be (it ends the walk)
 
     def violate(self, inv, key, msg):
         if self.partial_readline:
@@ -596,6 +640,33 @@ class Consumer:
         # tiny chunks over a large part only burn budget: keep <= ~400 calls per part
         floor = max(bl, (len(node.data) // 300) if node is not None else 0)
         return [max(floor, s) for s in sizes]
+
+    async def limited(self, part, node, decode, call, api):
+        """read() / text() of one part under the reader's client_max_size: the size error must come
+        exactly when the part's raw bytes (or, decoding, its decoded bytes) exceed the limit."""
+        if self.size_limit is None:
+            return await call()
+        c = self.size_limit
+        over = node.raw_len > c or (decode and len(node.data) > c)
+        where = ":nested" if node.depth else ""
+        try:
+            res = await call()
+        except self.size_exc as e:
+            if over:
+                self.probes["walk_cms_fired" + where.replace(":", "_")] = 1
+                self.size_hit = True
+            else:
+                self.violate("limit_exact", f"cms_false_reject:{type(e).__name__}",
+                             f"client_max_size={c}: part has {node.raw_len} raw / {len(node.data)} decoded bytes but "
+                             f"{api} raised {e!r}")
+            raise
+        if over:
+            self.violate("limit_enforced", "cms_not_enforced" + where,
+                         f"client_max_size={c}: part (nesting depth {node.depth}) has {node.raw_len} raw bytes "
+                         f"({len(node.data)} decoded) but {api} returned it")
+        else:
+            self.probes["walk_cms_within"] = 1
+        return res
 
     # ---- strict walk (round trip) ---------------------------------------------
     async def walk(self, reader, nodes, boundaries, complete=True):
@@ -723,7 +794,7 @@ class Consumer:
         enc = self.enc_of(node)
         self.loop.note("part", f"{kind}:{enc}:{len(node.data)}")
         if kind == "read":
-            data = bytes(await part.read(decode=op[1]))
+            data = bytes(await self.limited(part, node, op[1], lambda: part.read(decode=op[1]), f"read(decode={op[1]})"))
             if op[1]:
                 if data != node.data:
                     self.violate("content_equal", f"data_mismatch:read_decode:{enc}", _diff("read(decode=True)", data, node.data))
@@ -732,7 +803,7 @@ class Consumer:
             self.after_full(part, "read")
         elif kind == "text":
             try:
-                t = await part.text()
+                t = await self.limited(part, node, True, part.text, "text()")
             except UnicodeDecodeError:
                 if "charset" in node.payload.headers.get("Content-Type", ""):
                     raise
@@ -976,6 +1047,58 @@ def content_spans(wire, boundary):
     return out
 
 
+def preorder(nodes):
+    """Nodes in the order the reader meets their header blocks (a nested part, then its parts)."""
+    out = []
+    for n in nodes:
+        out.append(n)
+        if not n.leaf:
+            out.extend(preorder(n.parts))
+    return out
+
+
+def _depths(parts, d=0):
+    """nesting depth per node, parallel to preorder(nodes)"""
+    out = []
+    for p in parts:
+        out.append(d)
+        if p["k"] == "nested":
+            out.extend(_depths(p["sub"]["parts"], d + 1))
+    return out
+
+
+def set_raw_lens(wire, top, nodes):
+    """Fill Node.raw_len / Node.depth from the written body; False when the body does not scan
+    into exactly the parts written (then no size limit is judged)."""
+    order = preorder(nodes)
+    spans = preorder_spans(wire, top)
+    if len(spans) != len(order):
+        return False
+    for n, (cs, ce, _hb), d in zip(order, spans, _depths(top["parts"])):
+        n.raw_len = ce - cs
+        n.depth = d
+    return True
+
+
+def preorder_spans(wire, top):
+    """Like content_spans but through nested multiparts: one (content_start, content_end,
+    header_block_start) per node of preorder(nodes), absolute offsets; a nested part's content is
+    its whole inner multipart body.  Stops (shorter list) where the body does not scan."""
+    out = []
+
+    def rec(base, section, boundary, parts):
+        spans = content_spans(section, boundary)
+        for spec, (cs, ce, hb) in zip(parts, spans):
+            out.append((base + cs, base + ce, base + hb))
+            if spec["k"] == "nested":
+                if not rec(base + cs, section[cs:ce], spec["sub"]["boundary"], spec["sub"]["parts"]):
+                    return False
+        return len(spans) == len(parts)
+
+    rec(0, wire, top["boundary"], top["parts"])
+    return out
+
+
 def check_email(wire, ctype, nodes, violate, boundaries):
     # The email parser also accepts bare CR / bare LF before a delimiter; RFC 2046 (and aiohttp)
     # require CRLF.  Bodies holding such look-alikes (possible in binary content, including
@@ -1114,6 +1237,11 @@ def run_u(scn, ch, log=False):
                     kw = {"max_field_size": scn["mfs"]}
                 else:
                     kw = {"max_headers": scn["mh"]}
+            rcms = scn.get("rcms") if mode == "roundtrip" else None
+            if rcms is not None and set_raw_lens(wire, top, nodes):
+                kw = {"client_max_size": rcms, "max_size_error_cls": TooBig}
+            else:
+                rcms = None
             reader = MultipartReader(CIMultiDict({"Content-Type": ctype}), stream, **kw)
             st = {"i": 0, "fed": 0, "waiting": False, "eof_fed": False, "maxseg": max(pieces, default=0)}
             feed_eof = scn.get("eof", True)
@@ -1147,13 +1275,21 @@ def run_u(scn, ch, log=False):
             tr.on_resume = on_resume
             cons = Consumer(loop, scn["prog"], violate, probes, 2 * scn["limit"])
             cons.stream = stream
+            if rcms is not None:
+                cons.size_limit, cons.size_exc = rcms, TooBig
             outcome = {"exc": None, "consumed": None, "part_index": None}
 
             def consumed():
                 return st["fed"] - stream._size
 
             async def main_roundtrip():
-                await cons.walk(reader, nodes, boundaries)
+                try:
+                    await cons.walk(reader, nodes, boundaries)
+                except TooBig:
+                    # the size error ends the walk: right where a part exceeds the limit, or already
+                    # filed by Consumer.limited as a false rejection
+                    if not cons.size_hit and not viols:
+                        raise
 
             async def main_term():
                 try:
@@ -1163,24 +1299,44 @@ def run_u(scn, ch, log=False):
                         raise  # never entered aiohttp: a fault of this harness, not a reader error
                     outcome["exc"] = e
 
-            spans = content_spans(wire, top["boundary"]) if mode == "limits" else []
+            spans = preorder_spans(wire, top) if mode == "limits" else []
+            order = preorder(nodes) if mode == "limits" else []
             lim = {"idx": -1}
 
+            async def limits_level(rd):
+                # lim["idx"] = position in preorder(nodes) of the part being fetched / read
+                while True:
+                    lim["idx"] += 1
+                    part = await rd.next()
+                    if part is None:
+                        lim["idx"] -= 1
+                        return
+                    node = order[lim["idx"]] if lim["idx"] < len(order) else None
+                    if isinstance(part, MultipartReader):
+                        probes["limits_nested"] = 1
+                        if node is not None and node.leaf:
+                            violate("parts_equal", "leaf_read_as_nested", "a plain part came back as a nested reader")
+                        await limits_level(part)
+                        continue
+                    if node is not None and not node.leaf:
+                        violate("parts_equal", "nested_not_recognised", f"expected nested reader, got {type(part).__name__}")
+                        node = None
+                    op = scn["prog"][0]
+                    if op[0] == "text":
+                        data = (await part.text()).encode("utf-8")
+                    else:
+                        data = bytes(await part.read(decode=op[1]))
+                    if node is not None and not viols:
+                        want = node.data if (op[0] == "text" or op[1]) else None
+                        if want is not None and data != want:
+                            violate("content_equal", "data_mismatch:limits", _diff("read under limits", data, want))
+                        lim.setdefault("ok", []).append(lim["idx"])
+
             async def main_limits():
-                # flat list of leaves; every part read whole; the first limit error ends the run
+                # every leaf (also inside nested multiparts) read whole; the first limit error ends the run
                 try:
-                    while True:
-                        lim["idx"] += 1
-                        part = await reader.next()
-                        if part is None:
-                            break
-                        node = nodes[lim["idx"]] if lim["idx"] < len(nodes) else None
-                        data = bytes(await part.read(decode=scn["prog"][0][1]))
-                        if node is not None and not viols:
-                            want = node.data if scn["prog"][0][1] else None
-                            if want is not None and data != want:
-                                violate("content_equal", "data_mismatch:limits", _diff("read under limits", data, want))
-                            lim.setdefault("ok", []).append(lim["idx"])
+                    await limits_level(reader)
+                    lim["idx"] += 1
                 except Exception as e:
                     outcome["exc"] = e
                     outcome["consumed"] = consumed()
@@ -1233,9 +1389,11 @@ def run_u(scn, ch, log=False):
                     judge_truncation(scn, wire, body, top, nodes, cons, violate, probes)
                 if mode == "limits" and not viols:
                     nontrivial = True
-                    judge_limits(scn, wire, top, nodes, spans, outcome, lim, st, violate, probes)
+                    judge_limits(scn, wire, top, order, spans, outcome, lim, st, violate, probes)
             if cons.multi_chunk:
                 probes["multi_chunk_part"] = 1
+                nontrivial = True
+            if cons.size_hit:
                 nontrivial = True
             if tr.pauses:
                 probes["stream_paused"] = 1
@@ -1285,18 +1443,21 @@ def judge_truncation(scn, wire, body, top, nodes, cons, violate, probes):
 
 
 def judge_limits(scn, wire, top, nodes, spans, outcome, lim, st, violate, probes):
+    """nodes / spans: pre-order (a nested part, then its parts); lim["idx"] indexes the same list"""
     exc = outcome["exc"]
     kind = scn["lk"]
     ok = lim.get("ok", [])
     maxseg = st["maxseg"]
-    bl = len(top["boundary"]) + 4
+    bl = max(len(b) for b in all_boundaries(top)) + 4
     if kind == "cms":
         c = scn["cms"]
-        decode = scn["prog"][0][1]
+        decode = scn["prog"][0][0] == "text" or scn["prog"][0][1]
         first_bad = None
         for i, node in enumerate(nodes):
             if i >= len(spans):
                 break
+            if not node.leaf:
+                continue  # the limit is on what one part's read() returns
             raw_len = spans[i][1] - spans[i][0]
             if raw_len > c or (decode and len(node.data) > c):
                 first_bad = i
@@ -1308,16 +1469,18 @@ def judge_limits(scn, wire, top, nodes, spans, outcome, lim, st, violate, probes
             else:
                 probes["cms_within"] = 1
             return
+        where = "nested" if _depths(top["parts"])[first_bad] else "flat"
         if exc is None:
-            violate("limit_enforced", "cms_not_enforced",
-                    f"client_max_size={c}: part {first_bad} has {spans[first_bad][1] - spans[first_bad][0]} raw bytes "
-                    f"({len(nodes[first_bad].data)} decoded) but read(decode={decode}) returned it")
+            violate("limit_enforced", "cms_not_enforced" if where == "flat" else "cms_not_enforced:nested",
+                    f"client_max_size={c}: part {first_bad} ({where}) has {spans[first_bad][1] - spans[first_bad][0]} raw bytes "
+                    f"({len(nodes[first_bad].data)} decoded) but {scn['prog'][0]} returned it")
             return
         if not isinstance(exc, TooBig):
             violate("limit_enforced", f"cms_other_error:{type(exc).__name__}@{_frame_of(exc)}", f"expected the size error, got {exc!r}")
             return
         if lim["idx"] != first_bad:
-            violate("limit_exact", "cms_wrong_part", f"size error at part {lim['idx']}, expected at part {first_bad} (c={c})")
+            violate("limit_exact", "cms_wrong_part" if where == "flat" else "cms_wrong_part:nested",
+                    f"size error at part {lim['idx']}, expected at part {first_bad} ({where}; parts counted in reading order, c={c})")
             return
         probes["cms_fired"] = 1
         raw_len = spans[first_bad][1] - spans[first_bad][0]
@@ -1415,9 +1578,12 @@ def run_cs(scn, ch, log=False):
         net.on_connect = on_connect
         top, rtop = scn["w"], scn["rw"]
         # dry run of both writers: a writer that cannot serialise its parts is reported as in world U
+        req_wire = None
         for which, t_ in (("request", top), ("response", rtop)):
             dry, _n = build(t_)
             wire, _s = write_out(loop, dry, violate)
+            if which == "request":
+                req_wire = wire
             if wire is None:
                 stt = w.stats()
                 return {"violations": viols, "nontrivial": True, "sig": stt["sig"], "digest": stt["digest"],
@@ -1427,6 +1593,10 @@ def run_cs(scn, ch, log=False):
         resp_mpw, resp_nodes = build(rtop)
         req_size = req_mpw.size
         cms = scn["cms"] if scn["handler"] == "post" else None
+        # request.multipart(): the application's client_max_size bounds what one part's read() returns
+        cms_mp = scn["cms"] if scn["handler"] == "multipart" else None
+        if cms_mp is not None and not (not accidental_delimiter(req_wire, top) and set_raw_lens(req_wire, top, req_nodes)):
+            cms_mp = None
         srv = {"calls": 0, "exc": None, "too_large_at": None, "post": None, "done": False}
         bufsize = scn["read_bufsize"]
 
@@ -1446,6 +1616,8 @@ def run_cs(scn, ch, log=False):
                     reader = await request.multipart()
                     cons = Consumer(loop, scn["prog"], violate, probes, 2 * bufsize)
                     cons.stream = request.content
+                    if cms_mp is not None:
+                        cons.size_limit, cons.size_exc = cms_mp, web.HTTPRequestEntityTooLarge
                     srv["cons"] = cons
                     await cons.walk(reader, req_nodes, all_boundaries(top))
                 srv["done"] = True
@@ -1457,7 +1629,7 @@ def run_cs(scn, ch, log=False):
                 raise
             return web.Response(body=resp_mpw)
 
-        app = web.Application(client_max_size=cms if cms is not None else 64 * 1024 ** 2)
+        app = web.Application(client_max_size=cms if cms is not None else cms_mp if cms_mp is not None else 64 * 1024 ** 2)
         app.router.add_post("/mp", handler)
         runner = web.AppRunner(app, access_log=None, shutdown_timeout=1.0, read_bufsize=bufsize)
 
@@ -1521,7 +1693,14 @@ def run_cs(scn, ch, log=False):
                         f"posting the multipart body raised {cexc!r} (cause {cexc.__cause__!r})")
             elif cl["status"] == 413:
                 probes["cs_413"] = 1
-                if expect_413 is False:
+                if scn["handler"] == "multipart":
+                    if srv.get("cons") is not None and srv["cons"].size_hit:
+                        probes["cs_mp_413"] = 1
+                    elif not viols:
+                        violate("limit_exact", "cs_false_413",
+                                f"request.multipart() with client_max_size={cms_mp}: 413 although no part that was read "
+                                f"whole exceeds it")
+                elif expect_413 is False:
                     violate("limit_exact", "cs_false_413", f"body of {req_size} bytes refused with client_max_size={cms}")
                 elif srv["too_large_at"] is not None and scn["pol_c2s"] in ("small", "mss", "tiny") and req_size is not None:
                     bound = cms + 2 * bufsize + 4096 + 1024
@@ -1613,3 +1792,11 @@ def oracle_selftest():
     assert b"\r\n--XyZ" not in G.expand([["l", "a\r\n--XyZ--\r\n"]], "XyZ")
     assert G.expand_cuts({"m": "fixed", "n": 4}, b"x" * 10, []) == [4, 4, 2]
     assert sum(G.expand_cuts({"m": "window", "coarse": 50, "seed": 1}, b"x" * 300, [(100, 107)])) == 300
+    wire = (b"--o\r\nA: 1\r\n\r\nxx\r\n--o\r\nContent-Type: multipart/mixed; boundary=i\r\n\r\n"
+            b"--i\r\n\r\nyyy\r\n--i--\r\n\r\n--o--\r\n")
+    top = {"boundary": "o", "parts": [{"k": "bytes"}, {"k": "nested", "sub": {"boundary": "i", "parts": [{"k": "bytes"}]}}]}
+    got = [wire[cs:ce] for cs, ce, _hb in preorder_spans(wire, top)]
+    assert got == [b"xx", b"--i\r\n\r\nyyy\r\n--i--\r\n", b"yyy"], got
+    assert _depths(top["parts"]) == [0, 0, 1]
+    assert G.spelled({"ce": "gzip", "ces": "GZip"}, "ce") == "GZip" and G.spelled({"ce": "", "ces": "GZip"}, "ce") == ""
+    assert G.spelled({"cte": "base64"}, "cte") == "base64" and G.spelled({"ce": "deflate", "ces": "GZIP"}, "ce") == "deflate"
